@@ -719,6 +719,11 @@ func (c *Ctx) evalIndex(e *Expr, env *Env) *Val {
 	case x.T != nil && isString(x.T):
 		return &Val{K: VScalar, T: types.Typ[types.Uint8], S: sApp(c.strByteFn(), x.S, i)}
 	case x.T != nil:
+		if mt, ok := x.T.Underlying().(*types.Map); ok {
+			key := c.mapKeyTerm(mt, iv)
+			has := sAnd(sNot(sEq(x.S, "0")), c.mapHas(st, mt, x.S, key))
+			return c.iteVal(has, c.mapGet(st, mt, x.S, key, true), c.zeroVal(mt.Elem()))
+		}
 		if at, ok := x.T.Underlying().(*types.Array); ok {
 			return &Val{K: VScalar, T: at.Elem(), S: "(select " + x.S + " " + i + ")"}
 		}
@@ -899,6 +904,22 @@ func (c *Ctx) evalCall(e *Expr, env *Env) *Val {
 			return c.iteVal(lt.S, a, b)
 		}
 		return c.iteVal(lt.S, b, a)
+	case "has":
+		// has(m, k): key k is present in map m
+		m, k := arg(0), arg(1)
+		if m == nil || k == nil {
+			return nil
+		}
+		mt, ok := m.T.Underlying().(*types.Map)
+		if !ok {
+			c.specErr("has() on non-map")
+			return nil
+		}
+		st := env.st
+		if env.inOld {
+			st = env.old
+		}
+		return &Val{K: VScalar, T: boolT, S: sAnd(sNot(sEq(m.S, "0")), c.mapHas(st, mt, m.S, c.mapKeyTerm(mt, k)))}
 	case "bytesEq":
 		// bytesEq(s, t): slices have equal length and contents
 		a, b := arg(0), arg(1)
